@@ -133,7 +133,8 @@ def gen_args(rng, maxn=3):
     n = rng.choice([0, 1, 1, 2, 2, maxn])
     # names the generated helpers use for their own locals / fields are in the pool on purpose (shadowing)
     names = rng.sample(["a", "b", "amount", "to", "flag", "items", "memo", "x1", "y_2", "who",
-                        "contract", "funds", "msg", "addr", "querier", "code_id", "label", "admin", "sender", "salt", "app", "contract_addr"], n)
+                        "contract", "funds", "msg", "addr", "querier", "code_id", "label", "admin", "sender", "salt", "app", "contract_addr",
+                        "type", "ref", "match"], n)
     out = []
     for nm in names:
         ty = rand_vty(rng)
@@ -212,6 +213,14 @@ def gen_replies(rng, ce, taken=(), idx=None):
             kk = idx * 3 + hnames.index(h)
             mode = list(DATA_MODES)[kk % len(DATA_MODES)]
             inner_idx = kk // len(DATA_MODES)
+        # sometimes the methods of one handler name serve a second name too (`handlers=[h, h2]`, or the argument written twice)
+        alias = None
+        if rng.random() < 0.3:
+            cand = gen.shape_name(rng)
+            if cand not in RESERVED and casing.cc_upper_snake(cand) not in used and cand not in hnames and cand not in taken:
+                used.add(casing.cc_upper_snake(cand))
+                alias = cand
+        alias_split = rng.random() < 0.5
         for k, on in enumerate(pattern):
             on_word = {"S": "success", "E": "error", "A": "always"}[on]
             fn = h if (len(pattern) == 1 and rng.random() < 0.5) else "on_%s_%s" % (h, on_word)
@@ -231,12 +240,16 @@ def gen_replies(rng, ce, taken=(), idx=None):
             # Sometimes the payload parameters carry the names the generated dispatcher uses for its own locals (shadowing)
             first = args[0]["name"] if args else None
             if rng.random() < 0.3:
-                pool = [n for n in ["gas_used", "events", "msg_responses", "data", "error", "result", "payload", "deps", "env", "sub_msg_resp"] if n != first]
+                pool = [n for n in ["gas_used", "events", "msg_responses", "data", "error", "result", "payload", "deps", "env", "sub_msg_resp",
+                                    "id", "reply_on", "msg", "gas_limit"] if n != first]
                 rng.shuffle(pool)
                 args += [dict(a, name=pool[i]) for i, a in enumerate(payload)]
             else:
                 args += [dict(a, name=a["name"] + ("" if k == 0 else "b")) for a in payload]
             msg = {"kind": "reply", "reply_on": on_word, "handlers": [] if fn == h else [h]}
+            if alias:
+                msg["handlers"] = [h, alias]
+                msg["handlers_split"] = alias_split
             # dispatch_reply returns the handler's result as is: reply handlers must return the contract's own error type
             methods.append({"name": fn, "msg": msg, "args": args, "ret_kind": "resp", "ret_err": "ce" if ce else "std",
                             "reply_role": role, "reply_handler": h})
@@ -391,9 +404,9 @@ def reply_body(part, m):
     parts = []
     for a in pargs:
         if a.get("payload_raw"):
-            parts.append('("%s", format!("\\"x{}\\"", hex(%s.as_slice())))' % (a["name"], a["name"]))
+            parts.append('("%s", format!("\\"x{}\\"", hex(%s.as_slice())))' % (a["name"], gen.rs_ident(a["name"])))
         else:
-            parts.append('("%s", j(&%s))' % (a["name"], a["name"]))
+            parts.append('("%s", j(&%s))' % (a["name"], gen.rs_ident(a["name"])))
     return ("let attrs = echo_reply::<%s, _>(\"%s\", &ctx, %s, &[%s])?; ctx.deps.storage.set(b\"ran\", b\"%s\"); Ok(resp_of(attrs))"
             % (ety, hid, FIRST_EXPR[role], ", ".join(parts), hid))
 
@@ -403,7 +416,7 @@ def handler_body(part, m):
     if kind == "reply":
         return reply_body(part, m)
     hid = "%s.%s" % (part, m["name"])
-    args = ", ".join('("%s", j(&%s))' % (a["name"], a["name"]) for a in m["args"])
+    args = ", ".join('("%s", j(&%s))' % (a["name"], gen.rs_ident(a["name"])) for a in m["args"])
     info = "Some(&ctx.info)" if kind in ("exec", "instantiate") else "None"
     store = "ctx.deps.storage"
     ety = {"self": "Self::Error", "ce": "ContractError", "std": "StdError"}[m["ret_err"]]
@@ -593,7 +606,7 @@ def render_run(prog):
             if k == "reply":
                 continue
             tys = [gen.ty_text(a["ty"], " ") for a in m["args"]]
-            names = [a["name"] for a in m["args"]]
+            names = [gen.rs_ident(a["name"]) for a in m["args"]]
             if k in ("instantiate", "migrate"):
                 ctor = "%s::%s::new(%s)" % (svp, MSG_TY[k], ", ".join("a.%d.clone()" % i for i in range(len(tys))))
                 lit = "%s::%s { %s }" % (svp, MSG_TY[k], ", ".join("%s: a.%d.clone()" % (n, i) for i, n in enumerate(names)))
